@@ -167,16 +167,18 @@ func linGatedCmd(args []string) int {
 	site := fs.String("site", "sm.rotate.swapped", "hook site at which the flush path is parked")
 	hit := fs.Int("hit", 1, "n-th hit")
 	imm := fs.Bool("imm", false, "make the flush work on an immutable table (switch first) instead of the active one")
+	parkWriter := fs.Bool("parkwriter", false, "park a WRITER at -site (inside its append / insert) and run the flush path against it, instead of the other way round")
+	syncMode := fs.Int("sync", 0, "sync mode")
 	fs.Parse(args)
 	stderr := os.Stderr
 	muteStdout()
 	wal.DisableRecoveryLogs = true
 	conc := Conc{Class: "ascii"}
-	cc := CfgClass{MemTableSize: 1 << 20, SyncMode: 0, CompactSec: 3600}
+	cc := CfgClass{MemTableSize: 1 << 20, SyncMode: *syncMode, CompactSec: 3600}
 	if *imm {
 		cc.MemTableSize = 700
 	}
-	verifhook.Emit("h.reset", "\"a\":0,\"b\":0,\"sync\":0")
+	verifhook.Emit("h.reset", fmt.Sprintf("\"a\":0,\"b\":0,\"sync\":%d", *syncMode))
 	eng, err := openEngine(*dir, &cc)
 	if err != nil {
 		fmt.Fprintln(stderr, err)
@@ -239,11 +241,43 @@ func linGatedCmd(args []string) int {
 	g := newGate()
 	g.Park(*site, *hit)
 	fdone := make(chan struct{})
-	go func() { eng.FlushImMemTables(); close(fdone) }()
-	if !g.Wait(*site, 3*time.Second) {
-		log.ev(map[string]interface{}{"e": "notreached"})
-		log.close()
-		return 5
+	if *parkWriter {
+		// a writer stands still inside its own write; the flush path (rotation!) runs against it
+		// the flush path first advances to the start of the rotation (behind its snapshot of the table list, which waits for
+		// writers in flight) and stands still there; then the writer enters its write and is parked inside it; then the
+		// rotation is let go against the parked writer; finally the writer moves on
+		g.Park("sm.rotate.begin", 1)
+		go func() { eng.FlushImMemTables(); close(fdone) }()
+		if !g.Wait("sm.rotate.begin", 3*time.Second) {
+			log.ev(map[string]interface{}{"e": "notreached"})
+			log.close()
+			return 5
+		}
+		wd := call("c4", "put", "k2", "parked-writer", 50*time.Millisecond)
+		if !g.Wait(*site, 3*time.Second) {
+			log.ev(map[string]interface{}{"e": "notreached"})
+			log.close()
+			return 5
+		}
+		g.Release("sm.rotate.begin")
+		time.Sleep(150 * time.Millisecond)
+		g.Release(*site)
+		if !wait(wd, fdone) {
+			log.ev(map[string]interface{}{"e": "hang", "msg": "writer or flush did not return after the writer was released at " + *site})
+			log.close()
+			return 4
+		}
+		fdone = make(chan struct{})
+		close(fdone)
+		g.Park("h.never", 1)
+		*site = "h.never"
+	} else {
+		go func() { eng.FlushImMemTables(); close(fdone) }()
+		if !g.Wait(*site, 3*time.Second) {
+			log.ev(map[string]interface{}{"e": "notreached"})
+			log.close()
+			return 5
+		}
 	}
 	// while the flush path stands still: each client is sequential, a call that does not return within the grace period is
 	// left pending and that client makes no further call until it has returned
